@@ -1,3 +1,120 @@
 import Driver.Common
--- stub driver (not yet implemented)
-def main : IO Unit := Driver.run () (fun s _ => (s, "bad-op"))
+import SSV.Model.TcpRelay
+open SSV SSV.TcpRelay SSV.Gen.C13
+
+/-
+Line protocol of ssv_c13 (one line in, one line out):
+
+  hc k=v k=v …      run `handleConn` on the described environment, answer the rendered action list
+      sn dis           server native / wait disabled (0|1)
+      buf              wait buffer size
+      req              0: the handshake failed; 1: a request was returned
+      addr user pay    request: target address, user name (`-` = none), payload (hex, `-` = empty)
+      rerr             router error code (`-` = routed)
+      cn               the routed client's NativeInitialPayload (0|1)
+      pok sdl cdl      Proceed / SetReadDeadline / clearing the deadline succeed (0|1)
+      cs ts            bytes the client / the target will send (hex)
+      wk wn            wait read outcome: d(ata) e(of) t(imeout) x(error), byte count
+      derr             dial error code (`-` = connected)
+      sched            `auto` (a complete schedule) or a comma list of cL<k> cR<k> eL eR fL fR
+  native server|client <proto> <tfo>   the regenerated NativeInitialPayload table
+  consts             `<defaultInitialPayloadWaitTimeout ns> <defaultInitialPayloadWaitBufferSize>`
+  copy cs=… ts=… sched=…   run the two copy loops alone, answer the final state
+-/
+
+def kv (fs : List String) (k : String) : Option String :=
+  fs.findSome? (fun f => if f.startsWith (k ++ "=") then some (f.drop (k.length + 1)).toString else none)
+
+def flag (fs : List String) (k : String) : Option Bool :=
+  match kv fs k with
+  | some "1" => some true
+  | some "0" => some false
+  | _ => none
+
+def optCode (fs : List String) (k : String) : Option (Option Nat) :=
+  match kv fs k with
+  | some "-" => some none
+  | some s => s.toNat?.map some
+  | none => none
+
+def parseSide (c : Char) : Option Side :=
+  if c == 'L' then some .left else if c == 'R' then some .right else none
+
+def parseLabel (s : String) : Option Label :=
+  match s.toList with
+  | 'c' :: sd :: rest => do
+    let side ← parseSide sd
+    let k ← (String.ofList rest).toNat?
+    pure (.chunk side k)
+  | ['e', sd] => (parseSide sd).map .eof
+  | ['f', sd] => (parseSide sd).map .fail
+  | _ => none
+
+def parseSched (s : String) (cs ts : Bytes) (wb : Nat) : Option (List Label) :=
+  if s == "auto" then
+    some [.chunk .left (cs.length - wb), .chunk .left wb, .chunk .left cs.length, .eof .left,
+          .chunk .right ts.length, .eof .right]
+  else if s == "-" then some []
+  else (s.splitOn ",").mapM parseLabel
+
+def parseKind : String → Option ReadKind
+  | "d" => some .data
+  | "e" => some .eof
+  | "t" => some .timeout
+  | "x" => some .error
+  | _ => none
+
+def parseEnv (fs : List String) : Option Env := do
+  let sn ← flag fs "sn"
+  let dis ← flag fs "dis"
+  let buf ← (← kv fs "buf").toNat?
+  let hasReq ← flag fs "req"
+  let addr ← kv fs "addr"
+  let user ← kv fs "user"
+  let pay ← ofHex? (← kv fs "pay")
+  let rerr ← optCode fs "rerr"
+  let cn ← flag fs "cn"
+  let pok ← flag fs "pok"
+  let sdl ← flag fs "sdl"
+  let cdl ← flag fs "cdl"
+  let cs ← ofHex? (← kv fs "cs")
+  let ts ← ofHex? (← kv fs "ts")
+  let wk ← parseKind (← kv fs "wk")
+  let wn ← (← kv fs "wn").toNat?
+  let derr ← optCode fs "derr"
+  let e0 : Env := { serverNative := sn, waitDisabled := dis, bufSize := buf,
+                    req := if hasReq then some { addr := addr, payload := pay, user := if user == "-" then "" else user } else none,
+                    routeErr := rerr, clientNative := cn, proceedOk := pok, setDeadlineOk := sdl,
+                    clientStream := cs, waitKind := wk, waitN := wn, clearDeadlineOk := cdl,
+                    dialErr := derr, targetStream := ts, sched := [] }
+  let sched ← parseSched (← kv fs "sched") cs ts (waitBytes e0)
+  pure { e0 with sched := sched }
+
+def nativeOf (tbl : List (String × Native)) (proto : String) (tfo : Bool) : String :=
+  match tbl.lookup proto with
+  | some (.const b) => if b then "1" else "0"
+  | some .tfo => if tfo then "1" else "0"
+  | none => "unknown"
+
+def b01 (b : Bool) : String := if b then "1" else "0"
+
+def stepC13 (u : Unit) (line : String) : Unit × String :=
+  match fields line with
+  | "hc" :: fs =>
+    match parseEnv fs with
+    | some e => (u, renderTrace (handleConn e))
+    | none => (u, "bad-op")
+  | ["native", "server", proto, tfo] => (u, nativeOf serverNative proto (tfo == "1"))
+  | ["native", "client", proto, tfo] => (u, nativeOf clientNative proto (tfo == "1"))
+  | ["consts"] => (u, s!"{defaultInitialPayloadWaitTimeout} {defaultInitialPayloadWaitBufferSize}")
+  | "copy" :: fs =>
+    match (do
+      let cs ← ofHex? (← kv fs "cs")
+      let ts ← ofHex? (← kv fs "ts")
+      let sched ← parseSched (← kv fs "sched") cs ts 0
+      pure (runSched (CopySt.init cs ts) sched)) with
+    | some c => (u, s!"rxR={toHexField c.rxR} rxL={toHexField c.rxL} cwR={b01 c.cwR} cwL={b01 c.cwL} doneL={b01 c.doneL} doneR={b01 c.doneR} failL={b01 c.failL} failR={b01 c.failR} nL={c.nL} nR={c.nR}")
+    | none => (u, "bad-op")
+  | _ => (u, "bad-op")
+
+def main : IO Unit := Driver.run () stepC13
